@@ -81,7 +81,23 @@ class EditGen:
                 ['move_file'] * 2 + ['file_to_dir']
         if rdirs:
             kinds += ['remove_dir'] * 2 + ['rename_dir'] * 2
+        absent = getattr(self.proj, 'absent_base', None) or \
+            ('later' if 'find.absent_base' in self.proj.features else None)
+        if absent:
+            kinds += ['absent_base'] * 3
         k = rng.choice(kinds)
+        if k == 'absent_base':
+            # create (or remove again) the missing base of a search
+            if os.path.isdir(self.world.s(absent)):
+                if rng.random() < 0.5:
+                    return [['remove', absent]], 'remove_base'
+                rel = '{}/{}.c'.format(absent, self.fresh_name())
+                return [['write', rel, G.c_source(rel)]], 'add:base.c'
+            rel = '{}/{}.c'.format(absent, self.fresh_name())
+            ops = [['mkdir', absent]]
+            if rng.random() < 0.7:
+                ops.append(['write', rel, G.c_source(rel)])
+            return ops, 'create_base'
         if k == 'add_file':
             d = rng.choice(dirs)
             suffix = rng.choice(['', '', '', '_test', '_windows', '_linux'])
